@@ -14,7 +14,7 @@ pub const DEF: CheckDef = CheckDef {
     id: "C04",
     run,
     technique: "exhaustive enumeration of all ledgers of up to 3-4 transactions over a 14-transaction alphabet (as histories, any file order) x precision contexts x ALL (start,end) date ranges; balance, range-recomputed balance and register are obtained from the real code and compared with each other and with the reference ledger's per-posting amounts",
-    rule: "case = (precision context, sequence of <= 3 (thorough 4) transactions from a 14-transaction alphabet with three dates, repeated dates, multi-commodity, cancelling, inferred, assigned, priced and sub-precision postings); inside a case all 36 (start,end) pairs over {none, d1-1, d1, d2, d3, d3+1} (incl. start=end and start>end) are queried, additivity is checked for every split point, and a slice of cases is also run through the CLI (balance/register on real files). states = distinct ledgers, transitions = balance/register queries compared",
+    rule: "case = (precision context, sequence of <= 4 (thorough 5) transactions from a 14-transaction alphabet with three dates, repeated dates, multi-commodity, cancelling, inferred, assigned, priced and sub-precision postings); inside a case all 36 (start,end) pairs over {none, d1-1, d1, d2, d3, d3+1} (incl. start=end and start>end) are queried, additivity is checked for every split point, and a slice of cases is also run through the CLI (balance/register on real files). states = distinct ledgers, transitions = balance/register queries compared",
     assumptions: &[
         "RefLedger gives the per-posting amounts; sums are exact rationals; a range report may be rounded to the declared precision (any midpoint rule accepted), the whole-history report may be raw",
         "three dates, accounts {P,Q,R}, commodities {X,Y}",
@@ -340,7 +340,7 @@ fn cli_pass(text: &str, whole: &Balances, queries: &mut u64) -> Option<Outcome> 
 fn run(ctx: &mut Ctx) {
     let alpha = alphabet();
     let precs: Vec<Prec> = vec![Prec::new(), [("X", 2u32)].into_iter().collect()];
-    let maxlen = ctx.tier.pick(3usize, 4usize);
+    let maxlen = ctx.tier.pick(4usize, 5usize);
     let n = alpha.len();
     let mut counter = 0u64;
     for prec in &precs {
